@@ -77,6 +77,35 @@ def drop_tree(tmp):
     sh(["git", "-C", "/repo", "worktree", "prune"])
 
 
+def do_sweep(name, seeds, tier="quick"):
+    """checks only (no demo / pinned suite), over several VERIF_SEED values: how robustly
+    is the change caught? Results go to meta.json 'seed_sweep'."""
+    d = os.path.join(SEEDED, name)
+    meta = json.load(open(os.path.join(d, "meta.json")))
+    tmp = scratch_tree()
+    out = {}
+    try:
+        rc, o = sh(["git", "-C", tmp, "apply", os.path.join(d, "patch.diff")])
+        if rc != 0:
+            print("patch does not apply:", o)
+            return 1
+        p = meta["property"]
+        evp = os.path.join(VERIF, "evidence", p + ".json")
+        bak = open(evp).read() if os.path.exists(evp) else None
+        for sd in seeds:
+            e2 = dict(os.environ, VERIF_REPO=tmp, VERIF_SEED=str(sd))
+            rc, o = sh([os.path.join(VERIF, "check"), p, "--tier", tier], env=e2, timeout=7200)
+            out[str(sd)] = rc
+        if bak is not None:
+            open(evp, "w").write(bak)
+    finally:
+        drop_tree(tmp)
+    meta.setdefault("verified", {})["seed_sweep_%s" % tier] = out
+    json.dump(meta, open(os.path.join(d, "meta.json"), "w"), indent=1)
+    print("%-14s %s exits by seed: %s" % (name, meta["property"], out))
+    return 0
+
+
 def do_verify(name, tier="quick", all_props=False, props=None):
     d = os.path.join(SEEDED, name)
     meta = json.load(open(os.path.join(d, "meta.json")))
@@ -155,5 +184,9 @@ if __name__ == "__main__":
         tier = a[a.index("--tier") + 1] if "--tier" in a else "quick"
         props = a[a.index("--props") + 1].split(",") if "--props" in a else None
         sys.exit(do_verify(a[1], tier, "--all-props" in a, props))
+    if a[0] == "sweep":
+        seeds = [int(x) for x in a[a.index("--seeds") + 1].split(",")] if "--seeds" in a \
+            else [1, 2, 3, 4, 5]
+        sys.exit(do_sweep(a[1], seeds))
     if a[0] == "table":
         table()
